@@ -172,6 +172,7 @@ def mkEnv (T : Tables) (seed : Nat) : Env :=
 
 /-- queries evaluated at quiescent points (defaults for every argument) -/
 def queries (cfg : Config) (env : Env) (s : State) : List String :=
+  let ixs (l : List Bool) : String := pList pNat ((List.range l.length).filter (getB l ·))
   let can (op : Ctl) : String := pExcept pBool (M.canOp cfg env s op)
   [ "can_post_ante=" ++ can (.opPostAnte none),
     "can_collect_bets=" ++ can .opCollect,
@@ -203,7 +204,16 @@ def queries (cfg : Config) (env : Env) (s : State) : List String :=
     "max_cbr=" ++ pExcept (pOpt pInt) (s.maxCbrTo cfg),
     "total_pot=" ++ pExcept pInt (s.totalPotAmount cfg),
     "pots=" ++ pExcept (pList pPot) (s.pots cfg),
-    "board_count=" ++ pInt (s.boardCount cfg) ]
+    "board_count=" ++ pInt (s.boardCount cfg),
+    -- derived views of the public API (`*_indices`, `get_effective_stack`, `cards_in_play`, …)
+    "ante_ix=" ++ ixs s.antePosting,
+    "blind_ix=" ++ ixs s.blindPosting,
+    "runout_ix=" ++ ixs s.runoutSelectors,
+    "kill_ix=" ++ ixs s.handKilling,
+    "pull_ix=" ++ ixs s.chipsPulling,
+    "eff=" ++ pList (fun i => pExcept pInt (s.effectiveStack cfg i)) (playerIndices cfg),
+    "in_play=" ++ pCards ((s.board.flatten ++ s.hole.flatten).filter Card.known),
+    "out_play=" ++ pCards ((s.deck ++ s.burned ++ s.mucked ++ s.discarded.flatten).filter Card.known) ]
 
 /-- run a machine to quiescence, emitting `L`/`D` lines at every log append -/
 partial def runEmit (cfg : Config) (env : Env) (out : IO.FS.Stream) (m : M) (fuel : Nat) : IO M := do
